@@ -31,6 +31,19 @@ CLAIMED = {
          "deliberately not judged (not in the property).",
     technique="TLA+ container semantics + builder state machine checked by TLC; state-graph replay; trace validation with spec-side sfnt parser",
     design="4/C06"),
+ "C19": dict(
+    category="model_checking",
+    text="IFT.tla transcribes 'check entry intersection', invalidating-patch selection and the extension loop; TLC "
+         "checks the structural group rules, monotonicity/containment of the offered set, progress of every round, "
+         "applied-bit marking and termination (liveness) over exhaustive families of format-2 mapping tables and "
+         "chains of font generations; every family member is encoded as real IFT/IFTX bytes and the real "
+         "intersecting_patches / select_next_patches answers are compared with the specification's; model and random "
+         "extension loops run on the real client with a mock patch server and each round is validated by IFTTrace.",
+    note="Trusted: TLC, the transcription of the W3C text (not available offline; follows the repository's doc "
+         "comments), the harness's mapping-table encoder and mock patch server. Format 2 tables only, one axis, "
+         "<= 8 code point atoms. Cross-table ties between equally ordered candidates are accepted either way.",
+    technique="TLA+ spec of IFT selection/extension checked by TLC (safety + liveness); TLC-enumerated cases replayed on the client; trace validation of real extension loops",
+    design="4/C19"),
 }
 
 NOT_APPLICABLE = {
